@@ -1032,5 +1032,8 @@ def check_C05(rep, fl):
 
 def check_C09(rep, fl):
     check_only_update(rep, fl)
+    # "on a resident key it behaves as an update of value and cost": the queued Update always re-charges
+    import props_cache
+    props_cache.check_arms_reach_policy(rep, fl)
     check_store_writes(rep, fl)
     check_ttl_plumbing(rep, fl)
